@@ -48,7 +48,7 @@ VARIABLES field, base, hist
 vars == <<field, base, hist>>
 View == <<field, base>>
 
-Origins == {"parsed", "ctor", "builder"}
+Origins == {"parsed", "ctor", "builder"}      \* "padded": parsed from text with blanks around it
 Operands == { Plain(4), R(5, 1, 0, 0, 0), R(4, 2, 1, 1, 1) }
 Op(op, i, j, x, g) == [op |-> op, i |-> i, j |-> j, x |-> x, g |-> g]      \* i entry idx, j relation idx (0-based), x operand(s), g origin
 
@@ -76,9 +76,9 @@ Next ==
   \/ \E i \in 0..(NE - 1) : Do(Op("remove_entry", i, 0, <<>>, "parsed"), RemoveAt(field, i + 1))
   \/ \E i \in 0..(NE - 1) : Do(Op("entry_remove", i, 0, <<>>, "parsed"), RemoveAt(field, i + 1))
   \* ---- Entry (through a handle from get_entry(i))
-  \/ \E i \in 0..(NE - 1), x \in Operands, g \in Origins :
+  \/ \E i \in 0..(NE - 1), x \in Operands, g \in Origins \cup {"padded"} :
         Do(Op("entry_push", i, 0, <<x>>, g), [field EXCEPT ![i + 1] = Append(@, From(x, g))])
-  \/ \E i \in 0..(NE - 1) : \E j \in 0..(Len(field[i + 1]) - 1), x \in Operands, g \in {"parsed", "ctor"} :
+  \/ \E i \in 0..(NE - 1) : \E j \in 0..(Len(field[i + 1]) - 1), x \in Operands, g \in {"parsed", "ctor", "padded"} :
         Do(Op("entry_replace", i, j, <<x>>, g), EditRel(field, i + 1, j + 1, From(x, g)))
   \/ \E i \in 0..(NE - 1) : \E j \in 0..(Len(field[i + 1]) - 1) :
         Do(Op("remove_relation", i, j, <<>>, "parsed"), RemoveRel(field, i + 1, j + 1))
